@@ -180,9 +180,10 @@ fn outcome_of(evs: &[String], ntasks: usize) -> Option<String> {
 }
 
 /// Enumerate the whole schedule tree of one program with the walker; returns (trie, meta).
-fn enumerate(p: &Prog, cap: u64) -> (Trie, Value) {
+fn enumerate(p: &Prog, cap: u64, pbound: Option<u32>) -> (Trie, Value) {
     let prog = Arc::new(p.clone());
     let walker = Walker::new(cap);
+    walker.st.lock().unwrap().pbound = pbound;
     let mut trie = Trie::new();
     let mut outcomes: BTreeSet<String> = BTreeSet::new();
     let mut execs: u64 = 0;
@@ -221,7 +222,7 @@ fn enumerate(p: &Prog, cap: u64) -> (Trie, Value) {
     let st = walker.st.lock().unwrap();
     let outs: Vec<Value> = outcomes.iter().map(|s| serde_json::from_str(s).unwrap()).collect();
     let meta = json!({
-        "prog": p.id, "execs": execs, "fails": fails, "capped": st.capped,
+        "prog": p.id, "execs": execs, "fails": fails, "capped": st.capped, "pbound": pbound,
         "nondet": st.nondet, "nodes": trie.evs.len(), "leaves": trie.leaves,
         "outcomes": outs,
     });
@@ -320,7 +321,8 @@ fn cmd_one(args: &[String]) {
         std::fs::write(format!("{out}/p{idx}.meta"), meta.to_string()).unwrap();
         return;
     }
-    let (trie, meta) = enumerate(p, cap);
+    let pb: Option<u32> = arg(args, "--pb").map(|x| x.parse().unwrap());
+    let (trie, meta) = enumerate(p, cap, pb);
     write_trie(&trie, &format!("{out}/p{idx}.trie"));
     std::fs::write(format!("{out}/p{idx}.meta"), meta.to_string()).unwrap();
 }
@@ -358,7 +360,7 @@ fn cmd_enum(args: &[String]) {
                     c.arg(flag);
                 }
             }
-            for opt in ["--mode", "--iters", "--seed", "--bugs"] {
+            for opt in ["--mode", "--iters", "--seed", "--bugs", "--pb"] {
                 if let Some(v) = arg(args, opt) {
                     c.arg(opt).arg(v);
                 }
